@@ -654,8 +654,16 @@ func solverDiff(log, solver string, maxQueries int) string {
 			}
 			continue
 		}
-		if strings.HasPrefix(l, "(echo") || strings.HasPrefix(l, "(get-value") {
+		if strings.HasPrefix(l, "(echo") || strings.HasPrefix(l, "(get-value") || strings.HasPrefix(l, "(set-logic") {
 			continue
+		}
+		if strings.HasPrefix(l, "(set-option :produce-models") {
+			// start of a prelude: the primary solver was (re)started or reset here; the other solver gets a reset
+			// and its own prelude
+			script.WriteString("(reset)\n")
+			if solver == "cvc5" {
+				script.WriteString("(set-logic ALL)\n")
+			}
 		}
 		script.WriteString(l + "\n")
 	}
